@@ -514,12 +514,7 @@ def r6_await_registration(ctx):
 
 
 def run(ctx):
-    r1_unpark_enqueue(ctx)
-    r2_park_dequeue(ctx)
-    r3_pipeline(ctx)
-    r4_order(ctx)
-    r5_spawner(ctx)
-    r6_await_registration(ctx)
+    ctx.run_rules([r1_unpark_enqueue, r2_park_dequeue, r3_pipeline, r4_order, r5_spawner, r6_await_registration])
     return (
         "Decides structural clauses only: (1) every parked-set removal is paired with a run-queue push of the same id on every non-error "
         "path and only when something was parked; (2) only mark_* park, each dequeues, step re-queues unless parked, effect requests park first; "
